@@ -145,12 +145,19 @@ def _reach(g, x):
     return seen
 
 
+def renamed(text):
+    """the same model with other field names (the subject is the first field whatever it is called)"""
+    return text.replace("p = sub, obj,", "p = who, what,").replace("p.sub", "p.who").replace("p.obj", "p.what")
+
+
 def _subject_case(args):
     """one subject-priority policy through the real enforcer: stored order, decisions, or the exception"""
     g, p, dom = args[:3]
     bulk = len(args) > 3 and args[3]
     casbin = common.use_repo()
     text = SUBJ_DOM if dom else SUBJ
+    if len(args) > 4 and args[4]:
+        text = renamed(text)
     m = casbin.Enforcer.new_model(text=text)
     rules = [("g", "g", r) for r in g] + [("p", "p", r) for r in p]
     ad = pc.make_adapter(casbin, rules)
@@ -210,6 +217,8 @@ def run_subject(ctx, res, deep):
                 cases.append((gg, p, dom))
                 if len(cases) % 5 == 0:
                     cases.append((gg, p, dom, True))
+                if len(cases) % 7 == 0:
+                    cases.append((gg, p, dom, False, True))  # field names other than sub / obj
     # deep hierarchies: the level of a subject is not bounded by the role manager's depth bound
     global SNAMES_DEEP
     for depth in (9, 10, 11, 12, 14):
@@ -235,8 +244,9 @@ def run_subject(ctx, res, deep):
         res.evaluations += 1
         res.count("subject:" + ("cycle" if mres == "!cycle" else "sorted"))
         res.nontrivial.add(hash(("subj", repr(g), repr(p))))
-        case = {"shape": "subject-priority" + ("-dom" if dom else ""), "g": g, "p": p, "bulk": len(cfull) > 3}
-        res.count("subject-load:" + ("bulk" if len(cfull) > 3 else "constructor"))
+        ren = len(cfull) > 4 and cfull[4]
+        case = {"shape": "subject-priority" + ("-dom" if dom else ""), "g": g, "p": p, "bulk": len(cfull) > 3 and cfull[3], "renamed": ren}
+        res.count("subject-load:" + ("bulk" if case["bulk"] else "constructor") + (":renamed-fields" if ren else ""))
         if mres == "!fuel":
             raise common.Infra("hierarchyLoop ran out of fuel")
         if "error" in out:
@@ -337,7 +347,7 @@ def _work(group):
 def replay(obj):
     if obj.get("kind_of_case") == "subject":
         c = obj["case"]
-        out = _subject_case((c["g"], c["p"], c["shape"].endswith("-dom"), c.get("bulk", False)))
+        out = _subject_case((c["g"], c["p"], c["shape"].endswith("-dom"), c.get("bulk", False), c.get("renamed", False)))
         if "error" in out:
             return obj.get("expected") == "loads"
         edges = [(r[0], r[1]) for r in c["g"]]
